@@ -33,7 +33,7 @@ def run(ctx):
         if a.get("status") != "ok":
             continue
         xb = a["log"]["momtrop_feynman_parameter"]
-        if not SC.finite(xb) or not SC.finite([a["u"], a["v"]]):
+        if not SC.finite(xb) or not SC.finite([a["u"], a["v"], a["jac"]]):
             ctx.count("nonfinite_skipped"); continue
         x = SC.fr_list(xb)
         ex = SC.exact_quantities(s, x)
